@@ -155,6 +155,16 @@ class HashObj:
         self.fn, self.data, self.key = fn, data, key
 
 
+class DescriptorWrap:
+    """staticmethod(f) / classmethod(f) used as a call"""
+
+    def __init__(self, kind, fn):
+        self.kind, self.fn = kind, fn
+
+    def __deepcopy__(self, memo):
+        return self
+
+
 class LockObj:
     """threading.Lock() / RLock(): no effect on values"""
 
@@ -458,6 +468,13 @@ class Interp:
         for c in mro:
             if name in c.methods:
                 return c.methods[name]
+            if name in c.attr_nodes:
+                # `name = staticmethod(f)` / `name = f` in the class body
+                v = self.class_attr(c, name, default=None)
+                if isinstance(v, DescriptorWrap) and isinstance(v.fn, FuncRef):
+                    return v.fn
+                if isinstance(v, FuncRef):
+                    return v
         return None
 
     def has_class_attr(self, cls, name):
@@ -627,6 +644,11 @@ class Interp:
 
     def bind(self, member, recv, cls):
         """descriptor protocol for an attribute found on a class"""
+        if isinstance(member, DescriptorWrap):
+            # `name = staticmethod(f)` / `classmethod(f)` in a class body
+            if member.kind == "staticmethod":
+                return member.fn
+            return BoundMethod(member.fn, cls) if isinstance(member.fn, FuncRef) else member.fn
         if isinstance(member, FuncRef):
             if member.kind == "staticmethod":
                 return member
